@@ -48,7 +48,7 @@ fn pick_error(rng: &mut Rng) -> Error {
 }
 
 pub fn run(cfg: &Cfg, rep: &mut Report) {
-    let ntrees = cfg.n(4, 8_000, 300_000);
+    let ntrees = cfg.n(4, 24_000, 480_000);
     let nmsg = cfg.n(12, 80, 200) as usize;
     run_cases(cfg, "faults", ntrees, rep, |rng, ctx| {
         let (specs, nh) = TreeGen::generate(rng, true);
